@@ -2,15 +2,18 @@
   C02 — Rust encode then decode is the identity on every well-formed value.
 
   The round trip of the models (`Pdlv.encBody` then `Pdlv.decBody`) is established here for the
-  building blocks every packet is made of; the whole-packet statement for arbitrary
-  descriptions is carried by the correspondence check (`bin/check C02`) and stated below as
-  `roundtrip_statement` (open: not yet proved for all item kinds — see evidence `level_note`).
+  building blocks every packet is made of, then for whole packets and structs without parent
+  (`roundtrip`, `roundtrip_full`, `roundtrip_rust`) and for inheriting packets at any depth, decoded
+  through every ancestor (`roundtrip_inherit`, `roundtrip_inherit_full`), in the decidable
+  round-trippable class `rtWfFull`; the check evaluates the class and the statements per run.
 -/
 import Pdlv.Wire
 import Pdlv.Lemmas.Bits
 import Pdlv.Lemmas.Enc
 import Pdlv.Lemmas.RoundTrip
 import Pdlv.Thm.C03
+import Pdlv.Thm.C05
+import Pdlv.Lemmas.Inh
 
 namespace Pdlv
 
@@ -342,5 +345,327 @@ example : rtWfBody (.root "P" (.cons (.chunk [.count "x" 8, .flag "c" [("o", 1)]
   simp [rtWfBody, rtWfItems, rtWfItem, rtWfTy, tailOk, decWfItems, decWfItem, decWfTy, availAfter, chunkKeys,
     staticTy, lenWfTy, arrayIds, payloadModes, chunkBits, BitField.width, bfRtOk, bfNoArrayMod, optItems,
     firstArray, Ty.selfGuarded, greedyItems, greedyItem]
+
+/-! ### through the ancestors: inheriting packets at any depth -/
+
+theorem lookup_map_int (k : String) : ∀ (l : List (String × Nat)),
+    (l.map fun (k, c) => (k, Value.int c)).lookup k = (l.lookup k).map Value.int
+  | [] => rfl
+  | (a, c) :: l => by
+    by_cases h : k = a
+    · subst h; simp [List.lookup]
+    · have hb : (k == a) = false := by simpa using h
+      simp only [List.map_cons, List.lookup, hb]
+      exact lookup_map_int k l
+
+theorem lookup_mem {β : Type} (k : String) (x : β) : ∀ (l : List (String × β)), l.lookup k = some x → (k, x) ∈ l
+  | [], h => by simp at h
+  | (a, c) :: l, h => by
+    by_cases hk : k = a
+    · subst hk
+      simp only [List.lookup, beq_self_eq_true, Option.some.injEq] at h
+      subst h; simp
+    · have hb : (k == a) = false := by simpa using hk
+      simp only [List.lookup, hb] at h
+      exact List.mem_cons_of_mem _ (lookup_mem k x l h)
+
+/-- the value an inheriting packet is serialized from carries the constant for every constrained field -/
+theorem withConstants_get (allCs : List (String × Nat)) (v : Value) (k : String) (cv : Nat)
+    (hn : noConstrained allCs v = true) (hl : allCs.lookup k = some cv) :
+    (withConstants allCs v).get? k = some (.int cv) := by
+  simp only [noConstrained, List.all_eq_true, Option.isNone_iff_eq_none] at hn
+  have h0 := hn (k, cv) (lookup_mem k cv allCs hl)
+  simp only [Value.get?] at h0
+  simp only [withConstants, Value.get?]
+  show List.lookup k (v.fields ++ _) = _
+  rw [List.lookup_append, h0, lookup_map_int, hl]; rfl
+
+theorem hasPayload_modes_pos : ∀ (is : Items), is.hasPayload = true → 0 < (payloadModes is).length
+  | .nil, h => by simp [Items.hasPayload] at h
+  | .cons i r, h => by
+    cases i with
+    | payload m => simp [payloadModes]
+    | chunk fs => simpa [payloadModes] using hasPayload_modes_pos r (by simpa [Items.hasPayload] using h)
+    | array a b c d e => simpa [payloadModes] using hasPayload_modes_pos r (by simpa [Items.hasPayload] using h)
+    | typedef a b c => simpa [payloadModes] using hasPayload_modes_pos r (by simpa [Items.hasPayload] using h)
+    | optional a b c d => simpa [payloadModes] using hasPayload_modes_pos r (by simpa [Items.hasPayload] using h)
+
+theorem lenItemsNoPayload_eq (v : Value) : ∀ (is : Items), is.hasPayload = false → lenItemsNoPayload is v = lenItems is v
+  | .nil, _ => by simp [lenItemsNoPayload, lenItems]
+  | .cons i r, h => by
+    cases i with
+    | payload _ => simp [Items.hasPayload] at h
+    | chunk fs => simp only [Items.hasPayload] at h; simp [lenItemsNoPayload, lenItems, lenItemsNoPayload_eq v r h]
+    | array a b c d e => simp only [Items.hasPayload] at h; simp [lenItemsNoPayload, lenItems, lenItemsNoPayload_eq v r h]
+    | typedef a b c => simp only [Items.hasPayload] at h; simp [lenItemsNoPayload, lenItems, lenItemsNoPayload_eq v r h]
+    | optional a b c d => simp only [Items.hasPayload] at h; simp [lenItemsNoPayload, lenItems, lenItemsNoPayload_eq v r h]
+
+theorem lenItemsP_split (v : Value) (n : Nat) : ∀ (is : Items), is.hasPayload = true →
+    (payloadModes is).length ≤ 1 → lenItemsP is v n = lenItemsNoPayload is v + n
+  | .nil, h, _ => by simp [Items.hasPayload] at h
+  | .cons i r, h, hl => by
+    cases i with
+    | payload m =>
+      simp only [payloadModes, List.length_cons] at hl
+      have hr : r.hasPayload = false := by
+        cases hh : r.hasPayload with
+        | false => rfl
+        | true => have := hasPayload_modes_pos r hh; omega
+      have h1 := lenItemsP_noPayload v n r hr
+      simp only [lenItemsP, lenItemsNoPayload, h1, lenItemsNoPayload_eq v r hr]; omega
+    | chunk fs =>
+      have := lenItemsP_split v n r (by simpa [Items.hasPayload] using h) (by simpa [payloadModes] using hl)
+      simp only [lenItemsP, lenItemsNoPayload, this]; omega
+    | array a b c d e =>
+      have := lenItemsP_split v n r (by simpa [Items.hasPayload] using h) (by simpa [payloadModes] using hl)
+      simp only [lenItemsP, lenItemsNoPayload, this]; omega
+    | typedef a b c =>
+      have := lenItemsP_split v n r (by simpa [Items.hasPayload] using h) (by simpa [payloadModes] using hl)
+      simp only [lenItemsP, lenItemsNoPayload, this]; omega
+    | optional a b c d =>
+      have := lenItemsP_split v n r (by simpa [Items.hasPayload] using h) (by simpa [payloadModes] using hl)
+      simp only [lenItemsP, lenItemsNoPayload, this]; omega
+
+theorem le_lenItemsP (v : Value) (n : Nat) : ∀ (is : Items), is.hasPayload = true → n ≤ lenItemsP is v n
+  | .nil, h => by simp [Items.hasPayload] at h
+  | .cons i r, h => by
+    cases i with
+    | payload m => simp only [lenItemsP]; omega
+    | chunk fs => have := le_lenItemsP v n r (by simpa [Items.hasPayload] using h); simp only [lenItemsP]; omega
+    | array a b c d e => have := le_lenItemsP v n r (by simpa [Items.hasPayload] using h); simp only [lenItemsP]; omega
+    | typedef a b c => have := le_lenItemsP v n r (by simpa [Items.hasPayload] using h); simp only [lenItemsP]; omega
+    | optional a b c d => have := le_lenItemsP v n r (by simpa [Items.hasPayload] using h); simp only [lenItemsP]; omega
+
+/-- **one level of `decode_partial`**: when the parent decodes to the fields `F` and a payload that is the
+    reference encoding of this level's items, the child decodes to its own fields, the parent's
+    unconstrained fields and its own payload -/
+theorem level_step (ce cd : Cfg) (hce : ce.mode = .ideal) (hee : ce.e = cd.e)
+    (nm : String) (gp : Body) (cs allCs : List (String × Nat)) (items : Items) (v : Value)
+    (hw : rtWfLevel items = true) (input rest : Bytes) (F : List (String × Value)) (mb p : Bytes)
+    (hgp : decBody cd gp input = .ok (.obj (F ++ [("payload", Value.ofBytes mb)]), rest))
+    (hgpPay : gp.hasPayload = true) (hFp : F.lookup "payload" = none)
+    (hcs : ∀ kc ∈ cs, parentField gp (.obj (F ++ [("payload", Value.ofBytes mb)])) kc.1 = some kc.2)
+    (he : encItems ce items (.ok p) p.length v items = .ok mb) (hb : mb.length < usizeMax) :
+    decBody cd (.derived nm gp cs allCs items) input =
+      .ok (.obj (canonItems items v ++ (F.filter fun (k, _) => k != "payload" && !(cs.any (·.1 == k))) ++
+        (if items.hasPayload then [("payload", Value.ofBytes p)] else [])), rest) := by
+  simp only [rtWfLevel, Bool.and_eq_true, decide_eq_true_eq] at hw
+  obtain ⟨⟨⟨⟨hwi, hdi⟩, hnd⟩, hpm⟩, _⟩ := hw
+  obtain ⟨st', h1, h2, h3⟩ := items_rt ce cd hce hee items p v hnd items [] mb [] DState.empty hwi hdi
+    (by intro k hk; simp at hk) (by intro k y hk; simp [DState.empty, Ctx.get] at hk)
+    (fun t ht => ht) (fun t ht => ht) (payloadMode_of_modes items hpm) he (fun _ => rfl) (by simpa using hb)
+  simp only [List.append_nil] at h1
+  simp only [Value.ofBytes] at hgp hcs ⊢
+  have hviol : violated gp (.obj (F ++ [("payload", Value.arr (mb.map fun b => Value.int b.toNat))])) cs = false := by
+    simp only [violated, List.any_eq_false, bne_iff_ne, ne_eq, Decidable.not_not]
+    intro x hx; exact hcs x hx
+  have hlk : (F ++ [("payload", Value.arr (mb.map fun b => Value.int b.toNat))]).lookup "payload" =
+      some (Value.arr (mb.map fun b => Value.int b.toNat)) := by
+    rw [List.lookup_append, hFp]; rfl
+  have hfilt : ((F ++ [("payload", Value.arr (mb.map fun b => Value.int b.toNat))]).filter
+        fun (k, _) => k != "payload" && !(cs.any (·.1 == k))) =
+      F.filter fun (k, _) => k != "payload" && !(cs.any (·.1 == k)) := by
+    rw [List.filter_append]; simp
+  simp only [DState.empty, List.nil_append] at h2 h3
+  simp only [decBody, hgp, Outcome.bind, decPartialWith, Value.fields, hviol, Bool.false_eq_true, ↓reduceIte, hgpPay,
+    hlk, ofBytes_back, h1, List.isEmpty_nil, h2, h3, hfilt]
+  by_cases hh : items.hasPayload = true
+  · simp [hh, Value.ofBytes]
+  · have hh' : items.hasPayload = false := by simpa using hh
+    simp [hh']
+
+theorem chain_lenWf (leafCs : List (String × Nat)) : ∀ (b : Body), rtWfChain leafCs b = true →
+    lenWfBody b = true ∧ b.hasPayload = true ∧ bodyFind b "payload" = none
+  | .root _ items, h => by
+    simp only [rtWfChain, rtWfLevel, Bool.and_eq_true, beq_iff_eq] at h
+    exact ⟨by simpa [lenWfBody] using h.1.1.2, by simpa [Body.hasPayload, Body.items] using h.1.2,
+      by simpa [bodyFind] using h.2⟩
+  | .derived _ gp _ _ items, h => by
+    simp only [rtWfChain, rtWfLevel, Bool.and_eq_true, beq_iff_eq] at h
+    obtain ⟨h1, h2, _⟩ := chain_lenWf leafCs gp h.2
+    exact ⟨by simp [lenWfBody, h.1.1.1.1.2, h1, h2], by simpa [Body.hasPayload, Body.items] using h.1.1.1.2, h.1.1.2⟩
+
+theorem le_aroundLen (leafCs : List (String × Nat)) (v : Value) : ∀ (b : Body) (n : Nat), rtWfChain leafCs b = true →
+    n ≤ aroundLen b v n
+  | .root _ items, n, h => by
+    simp only [rtWfChain, Bool.and_eq_true] at h
+    simpa [aroundLen] using le_lenItemsP v n items h.1.2
+  | .derived _ gp _ _ items, n, h => by
+    simp only [rtWfChain, Bool.and_eq_true] at h
+    have h1 := le_lenItemsP v n items h.1.1.1.2
+    have h2 := le_aroundLen leafCs v gp (lenItemsP items v n) h.2
+    simp only [aroundLen]; omega
+
+/-- a constraint of the class holds of the parent value the decoder builds -/
+theorem constraint_holds (leafCs : List (String × Nat)) (v : Value)
+    (hv : ∀ k cv, leafCs.lookup k = some cv → v.get? k = some (.int cv)) (gp : Body) (x : Value)
+    (kc : String × Nat) (hk : constraintOk leafCs gp kc = true) :
+    parentField gp (.obj (fieldsAround gp v ++ [("payload", x)])) kc.1 = some kc.2 := by
+  simp only [constraintOk, Bool.and_eq_true, beq_iff_eq, bne_iff_ne, ne_eq, Bool.or_eq_true] at hk
+  obtain ⟨⟨hl, hnp⟩, hf⟩ := hk
+  have hval := hv kc.1 kc.2 hl
+  have hfs := fieldsAround_find v kc.1 gp
+  simp only [parentField, Value.fields]
+  cases hf with
+  | inl ht =>
+    rw [List.lookup_append, hfs.2 ht, hval]; rfl
+  | inr hn =>
+    have hb : (kc.1 == "payload") = false := by simpa using hnp
+    rw [List.lookup_append, hfs.1 hn.1]
+    simp only [Option.none_or, List.lookup, hb]
+    cases gp with
+    | root _ _ => simp [Body.allCs] at hn
+    | derived _ _ _ a _ => simpa [Body.allCs] using hn.2
+
+/-- **the ancestors, outermost first**: decoding what the reference-mode encoder wrapped around the inner
+    octets `ib` yields, at every ancestor, that ancestor's fields and `ib` as its payload -/
+theorem around_rt (ce cd : Cfg) (hce : ce.mode = .ideal) (hee : ce.e = cd.e) (leafCs : List (String × Nat)) (v : Value)
+    (hv : ∀ k cv, leafCs.lookup k = some cv → v.get? k = some (.int cv)) :
+    ∀ (b : Body), rtWfChain leafCs b = true → ∀ (ib bs rest : Bytes),
+      encAround ce b v (.ok ib) ib.length = .ok bs → (greedyBody b = true → rest = []) →
+      (bs ++ rest).length < usizeMax →
+      decBody cd b (bs ++ rest) = .ok (.obj (fieldsAround b v ++ [("payload", Value.ofBytes ib)]), rest)
+  | .root nm items, hw, ib, bs, rest, he, hgr, hb => by
+    simp only [rtWfChain, rtWfLevel, Bool.and_eq_true, decide_eq_true_eq] at hw
+    obtain ⟨⟨⟨⟨⟨⟨hwi, hdi⟩, hnd⟩, hpm⟩, _⟩, hpay⟩, _⟩ := hw
+    simp only [encAround] at he
+    obtain ⟨st', h1, h2, h3⟩ := items_rt ce cd hce hee items ib v hnd items [] bs rest DState.empty hwi hdi
+      (by intro k hk; simp at hk) (by intro k y hk; simp [DState.empty, Ctx.get] at hk)
+      (fun t ht => ht) (fun t ht => ht) (payloadMode_of_modes items hpm) he hgr hb
+    simp only [DState.empty, List.nil_append, hpay, ↓reduceIte] at h2 h3
+    simp only [decBody, h1, Outcome.bind, h2, h3, fieldsAround]
+  | .derived nm gp cs a items, hw, ib, bs, rest, he, hgr, hb => by
+    simp only [rtWfChain, Bool.and_eq_true, beq_iff_eq, List.all_eq_true] at hw
+    obtain ⟨⟨⟨⟨hlev, hpay⟩, hnop⟩, hcs⟩, hch⟩ := hw
+    have hlev' := hlev
+    simp only [rtWfLevel, Bool.and_eq_true, decide_eq_true_eq] at hlev'
+    obtain ⟨⟨⟨⟨_, _⟩, _⟩, hpm⟩, hlw⟩ := hlev'
+    simp only [encAround] at he
+    obtain ⟨hgl, hgpay, hgnop⟩ := chain_lenWf leafCs gp hch
+    obtain ⟨mb, hmb, hlen⟩ := encAround_len ce gp v _ _ bs hgl hgpay he
+    have hmbl := encItems_len ce items ib ib.length v items mb hlw hmb
+    have hsplit := lenItemsP_split v ib.length items hpay hpm
+    have he' : encAround ce gp v (.ok mb) mb.length = .ok bs := by
+      rw [hmb] at he; rw [hmbl, hsplit]; exact he
+    have hgr' : greedyBody gp = true → rest = [] := by simpa [greedyBody] using hgr
+    have ih := around_rt ce cd hce hee leafCs v hv gp hch mb bs rest he' hgr' hb
+    have hmble : mb.length < usizeMax := by
+      have := le_aroundLen leafCs v gp mb.length hch
+      simp only [List.length_append] at hb; omega
+    have hstep := level_step ce cd hce hee nm gp cs a items v hlev (bs ++ rest) rest (fieldsAround gp v) mb ib ih hgpay
+      ((fieldsAround_find v "payload" gp).1 hgnop)
+      (fun kc hkc => constraint_holds leafCs v hv gp _ kc (hcs kc hkc)) hmb hmble
+    rw [hstep]
+    simp only [hpay, ↓reduceIte, fieldsAround, List.append_assoc]
+
+/-- **C02 through the ancestors.**  For every inheriting packet, at any depth, whose levels are in the
+    round-trippable class and whose constraints name scalar / enum fields of an ancestor (`rtWfFull`:
+    decidable, evaluated by the check on every generated layout), both byte orders, the decoder in either
+    mode, every value the reference-mode encoder accepts: `decode` — which parses the outermost ancestor,
+    then checks the constraints and parses the payload level by level (`decode_partial`) — returns the
+    value (own fields, then the inherited unconstrained fields, then the payload) and the rest. -/
+theorem roundtrip_inherit (e : Endian) (m : Mode) (nm : String) (parent : Body) (cs allCs : List (String × Nat))
+    (items : Items) (hw : rtWfFull (.derived nm parent cs allCs items) = true) (v : Value)
+    (hv : noConstrained allCs v = true) (bs rest : Bytes)
+    (he : encBody { e := e, mode := .ideal } (.derived nm parent cs allCs items) v = .ok bs)
+    (hgr : greedyBody parent = true → rest = []) (hb : (bs ++ rest).length < usizeMax) :
+    decBody { e := e, mode := m } (.derived nm parent cs allCs items) (bs ++ rest) =
+      .ok (canonFull (.derived nm parent cs allCs items) v, rest) := by
+  simp only [rtWfFull, Bool.and_eq_true, List.all_eq_true] at hw
+  obtain ⟨⟨hlev, hcs⟩, hch⟩ := hw
+  have hlev' := hlev
+  simp only [rtWfLevel, Bool.and_eq_true, decide_eq_true_eq] at hlev'
+  obtain ⟨_, hlw⟩ := hlev'
+  obtain ⟨hgl, hgpay, hgnop⟩ := chain_lenWf allCs parent hch
+  simp only [encBody] at he
+  split at he
+  · cases he
+  · rename_i p hp
+    have hv' : ∀ k cv, allCs.lookup k = some cv → (withConstants allCs v).get? k = some (.int cv) :=
+      fun k cv h => withConstants_get allCs v k cv hv h
+    obtain ⟨ib, hib, hlen⟩ := encAround_len { e := e, mode := .ideal } parent (withConstants allCs v) _ _ bs hgl hgpay he
+    have h1 := encItems_len { e := e, mode := .ideal } items p p.length (withConstants allCs v) items ib hlw hib
+    have hown : lenItems items (withConstants allCs v) = ib.length := by
+      rw [h1]
+      by_cases hpay : items.hasPayload = true
+      · simp only [hpay, ↓reduceIte] at hp
+        cases hg : v.get? "payload" with
+        | none => simp [hg] at hp
+        | some pv =>
+          simp only [hg, Option.bind_some] at hp
+          have hg' : (withConstants allCs v).get? "payload" = some pv := by
+            simp only [withConstants, Value.get?] at hg ⊢
+            show List.lookup "payload" (v.fields ++ _) = _
+            rw [List.lookup_append, hg]; rfl
+          rw [valBytes_length pv p hp, ← hg']
+          exact (lenItemsP_payloadLen _ items).symm
+      · have hpay' : items.hasPayload = false := by simpa using hpay
+        exact (lenItemsP_noPayload _ p.length items hpay').symm
+    have he' : encAround { e := e, mode := .ideal } parent (withConstants allCs v) (.ok ib) ib.length = .ok bs := by
+      change encAround _ parent (withConstants allCs v) _ (lenItems items (withConstants allCs v)) = _ at he
+      rw [hib, hown] at he; exact he
+    have hpar := around_rt { e := e, mode := .ideal } { e := e, mode := m } rfl rfl allCs (withConstants allCs v) hv'
+      parent hch ib bs rest he' hgr hb
+    have hible : ib.length < usizeMax := by
+      have := le_aroundLen allCs (withConstants allCs v) parent ib.length hch
+      simp only [List.length_append] at hb; omega
+    have hstep := level_step { e := e, mode := .ideal } { e := e, mode := m } rfl rfl nm parent cs allCs items
+      (withConstants allCs v) hlev (bs ++ rest) rest (fieldsAround parent (withConstants allCs v)) ib p hpar hgpay
+      ((fieldsAround_find _ "payload" parent).1 hgnop)
+      (fun kc hkc => constraint_holds allCs _ hv' parent _ kc (hcs kc hkc)) hib hible
+    rw [hstep]
+    simp only [canonFull, fieldsAround]
+    by_cases hpay : items.hasPayload = true
+    · simp only [hpay, ↓reduceIte] at hp ⊢
+      simp only [payloadBytes, hp, Option.getD_some]
+    · have hpay' : items.hasPayload = false := by simpa using hpay
+      simp only [hpay', Bool.false_eq_true, ↓reduceIte]
+
+/-- `decode_full ∘ encode` is the identity for inheriting packets -/
+theorem roundtrip_inherit_full (e : Endian) (m : Mode) (nm : String) (parent : Body) (cs allCs : List (String × Nat))
+    (items : Items) (hw : rtWfFull (.derived nm parent cs allCs items) = true) (v : Value)
+    (hv : noConstrained allCs v = true) (bs : Bytes)
+    (he : encBody { e := e, mode := .ideal } (.derived nm parent cs allCs items) v = .ok bs) (hb : bs.length < usizeMax) :
+    decodeFull { e := e, mode := m } (.derived nm parent cs allCs items) bs =
+      .ok (canonFull (.derived nm parent cs allCs items) v) := by
+  have := roundtrip_inherit e m nm parent cs allCs items hw v hv bs [] he (fun _ => rfl) (by simpa using hb)
+  simp only [List.append_nil] at this
+  simp [decodeFull, this, Outcome.bind]
+
+/-- **C02, any body**: packets and structs without parent and inheriting packets alike -/
+theorem roundtrip_any (e : Endian) (m : Mode) (b : Body) (hw : rtWfFull b = true) (v : Value)
+    (hv : noConstrained b.allCs v = true) (bs : Bytes)
+    (he : encBody { e := e, mode := .ideal } b v = .ok bs) (hb : bs.length < usizeMax) :
+    decodeFull { e := e, mode := m } b bs = .ok (canonFull b v) := by
+  cases b with
+  | root nm items => exact roundtrip_full e m nm items (by simpa [rtWfFull] using hw) v bs he hb
+  | derived nm parent cs allCs items => exact roundtrip_inherit_full e m nm parent cs allCs items hw v hv bs he hb
+
+/-- **"decoded as any ancestor and specialized back down"**: the same bytes decoded as the direct parent
+    give the parent's fields and the child's octets as payload, and `Child::try_from(&parent)`
+    (`decode_partial`) applied to that value is the child's value again -/
+theorem roundtrip_via_parent (e : Endian) (m : Mode) (nm : String) (parent : Body) (cs allCs : List (String × Nat))
+    (items : Items) (hw : rtWfFull (.derived nm parent cs allCs items) = true) (v : Value)
+    (hv : noConstrained allCs v = true) (bs : Bytes)
+    (he : encBody { e := e, mode := .ideal } (.derived nm parent cs allCs items) v = .ok bs) (hb : bs.length < usizeMax) :
+    ∃ pv, decBody { e := e, mode := m } parent bs = .ok (pv, []) ∧
+      decPartial { e := e, mode := m } parent cs items pv = .ok (canonFull (.derived nm parent cs allCs items) v) := by
+  have h := roundtrip_inherit e m nm parent cs allCs items hw v hv bs [] he (fun _ => rfl) (by simpa using hb)
+  simp only [List.append_nil, decBody] at h
+  obtain ⟨⟨pv, r⟩, hp, h2⟩ := bind_ok _ _ _ h
+  obtain ⟨cv, hc, h3⟩ := bind_ok _ _ _ h2
+  simp only [Outcome.ok.injEq, Prod.mk.injEq] at h3
+  obtain ⟨rfl, rfl⟩ := h3
+  exact ⟨pv, hp, hc⟩
+
+/-! non-vacuity: `packet P { k: 8, x: 8, _payload_ }`, `packet C : P (k = 3) { y: 16 }` is in the class, and the
+    statement's premises hold of the value `{ x: 7, y: 513 }`, whose encoding is `03 07 01 02` -/
+example :
+    let P : Body := .root "P" (.cons (.chunk [.scalar "k" 8, .scalar "x" 8]) (.cons (.payload .last) .nil))
+    let C : Body := .derived "C" P [("k", 3)] [("k", 3)] (.cons (.chunk [.scalar "y" 16]) .nil)
+    let v : Value := .obj [("x", .int 7), ("y", .int 513)]
+    rtWfFull C = true ∧ noConstrained [("k", 3)] v = true ∧
+    encBody { e := .little, mode := .ideal } C v = .ok [3, 7, 1, 2] := by
+  refine ⟨by decide, by decide, by rfl⟩
 
 end Pdlv
